@@ -30,7 +30,7 @@ def gen_lexicon(rng, k):
         d = rng.choice(['dup-entry', 'dup-sense', 'dup-synset', 'dup-form-id', 'dangling-synset', 'dangling-srel', 'dangling-yrel',
                         'empty-synset', 'rep-ili', 'spurious-ilidef', 'missing-ilidef', 'blank-def', 'blank-ex', 'rep-def',
                         'self-loop', 'redundant-rel', 'nonrecip', 'pos-clash', 'redundant-sense', 'redundant-entry', 'no-senses',
-                        'bad-reltype', 'lexid-clash', 'dangling-hypernym', 'no-pos', 'cross-kind-target', 'cross-kind-target'])
+                        'bad-reltype', 'lexid-clash', 'dangling-hypernym', 'no-pos', 'cross-kind-target', 'cross-kind-target', 'reltype-sweep', 'reltype-sweep'])
         if d == 'dup-entry' and len(ents) >= 2:
             ents[1]['id'] = ents[0]['id']
         elif d == 'dup-sense' and len(senses) >= 2:
@@ -98,6 +98,20 @@ def gen_lexicon(rng, k):
             rng.choice(syns).setdefault('relations', []).append({'target': rng.choice(senses)['id'], 'relType': rng.choice(['similar', 'hypernym']), 'meta': None})
             if ents and rng.random() < 0.5:
                 rng.choice(senses).setdefault('relations', []).append({'target': rng.choice(ents)['id'], 'relType': 'also', 'meta': None})
+        elif d == 'reltype-sweep' and len(syns) >= 2:
+            # every documented relation name once (plus its reverse half of the time): none of them is an invalid type
+            import pinned_tables as PT
+            for nm in sorted(PT.SYNSET_RELATIONS):
+                a_, b_ = rng.sample(syns, 2)
+                a_.setdefault('relations', []).append({'target': b_['id'], 'relType': nm, 'meta': None})
+                if nm in PT.REVERSE_RELATIONS and rng.random() < 0.5:
+                    b_.setdefault('relations', []).append({'target': a_['id'], 'relType': PT.REVERSE_RELATIONS[nm], 'meta': None})
+            if len(senses) >= 2:
+                for nm in sorted(PT.SENSE_RELATIONS):
+                    a_, b_ = rng.sample(senses, 2)
+                    a_.setdefault('relations', []).append({'target': b_['id'], 'relType': nm, 'meta': None})
+                for nm in sorted(PT.SENSE_SYNSET_RELATIONS):
+                    rng.choice(senses).setdefault('relations', []).append({'target': rng.choice(syns)['id'], 'relType': nm, 'meta': None})
         elif d == 'lexid-clash':
             syns[0]['id'] = lx['id']
         elif d == 'no-pos':
@@ -108,7 +122,7 @@ def gen_lexicon(rng, k):
 def expected(lx):
     """the documented conditions (module docstring of wn.validate), evaluated independently.
     Returns {code: (required ids, allowed contexts per id)}"""
-    from wn.constants import SENSE_RELATIONS, SENSE_SYNSET_RELATIONS, SYNSET_RELATIONS, REVERSE_RELATIONS
+    from pinned_tables import SENSE_RELATIONS, SENSE_SYNSET_RELATIONS, SYNSET_RELATIONS, REVERSE_RELATIONS
     from collections import Counter
     ents, syns = lx.get('entries', []), lx.get('synsets', [])
     senses = [(e, s) for e in ents for s in e.get('senses', [])]
